@@ -9,6 +9,7 @@ import (
 	"encoding/json"
 	"errors"
 	"fmt"
+	"io"
 	"math/rand"
 	"net/http"
 	"net/http/httptest"
@@ -55,6 +56,71 @@ type c11Case struct {
 	// round 6: further request headers that a short-cut might key on (name, value); the name `Host` sets the
 	// request's Host.  None of them is consulted by the middleware.
 	Decoy [][2]string `json:"decoy,omitempty"`
+
+	// round 7: the state of the shared response when the first instance is entered, made by a middleware in front
+	Entry *c11EntryState `json:"entry,omitempty"`
+}
+
+// what an earlier middleware did to the response before calling next: CORS-looking headers already there, the Status
+// field preset, or the response already STARTED (Commit = status written; How 0 WriteHeader, 1 Write of a byte
+// (implicit 200), 2 WriteHeader + Flush)
+type c11EntryState struct {
+	Commit int      `json:"commit,omitempty"`
+	How    int      `json:"how,omitempty"`
+	ACAO   string   `json:"acao,omitempty"`
+	ACAC   bool     `json:"acac,omitempty"`
+	Vary   []string `json:"vary,omitempty"`
+	Status int      `json:"status,omitempty"`
+}
+
+func (en *c11EntryState) commitStatus() int {
+	switch {
+	case en == nil || en.Commit == 0:
+		return 0
+	case en.How == 1:
+		// Write starts the response with the preset Status field, 200 when none
+		if en.Status != 0 {
+			return en.Status
+		}
+		return http.StatusOK
+	case en.Commit < 200 || en.Commit > 599:
+		return http.StatusOK
+	}
+	return en.Commit
+}
+
+func c11Early(en *c11EntryState) echo.MiddlewareFunc {
+	return func(next echo.HandlerFunc) echo.HandlerFunc {
+		return func(ctx echo.Context) error {
+			if en != nil {
+				res := ctx.Response()
+				if en.ACAO != "" {
+					res.Header().Set("Access-Control-Allow-Origin", en.ACAO)
+				}
+				if en.ACAC {
+					res.Header().Set("Access-Control-Allow-Credentials", "true")
+				}
+				for _, v := range en.Vary {
+					res.Header().Add("Vary", v)
+				}
+				if en.Status != 0 {
+					res.Status = en.Status
+				}
+				if en.Commit != 0 {
+					switch en.How {
+					case 1:
+						_, _ = res.Write([]byte("x"))
+					case 2:
+						res.WriteHeader(en.commitStatus())
+						res.Flush()
+					default:
+						res.WriteHeader(en.commitStatus())
+					}
+				}
+			}
+			return next(ctx)
+		}
+	}
 }
 
 // one more CORS instance (same meaning of the fields as in c11Case)
@@ -378,6 +444,12 @@ func c11Run(ci any) (res Result) {
 			}
 		}
 	}
+	e.Logger.SetOutput(io.Discard)
+	if c.Pre {
+		e.Pre(c11Early(c.Entry))
+	} else {
+		e.Use(c11Early(c.Entry))
+	}
 	var groupMW, routeMW []echo.MiddlewareFunc
 	for i, l := range layers {
 		i := i
@@ -476,7 +548,20 @@ func c11Run(ci any) (res Result) {
 		return false
 	}()
 
-	ops := append(c13HeadOps(req), wInt(n))
+	en := c.Entry
+	if en == nil {
+		en = &c11EntryState{}
+	}
+	committed := en.commitStatus() != 0
+	ops := []string{wInt(en.commitStatus())}
+	if en.ACAO != "" {
+		ops = append(ops, "1", wStr(en.ACAO))
+	} else {
+		ops = append(ops, "0")
+	}
+	ops = append(ops, wBool(en.ACAC), wStrs(en.Vary))
+	ops = append(ops, c13HeadOps(req)...)
+	ops = append(ops, wInt(n))
 	for i, l := range layers {
 		ops = append(ops, c11LayerOps(l, skipped[i], routerAllow[i], origin))
 	}
@@ -486,6 +571,9 @@ func c11Run(ci any) (res Result) {
 		return res
 	}
 	hd := rec.Header()
+	if committed {
+		hd = rec.Result().Header // what went over the wire: later header changes are not sent
+	}
 	acao, hasACAO := hd["Access-Control-Allow-Origin"]
 	hasACAO = hasACAO && len(acao) > 0
 	acac := hd.Get("Access-Control-Allow-Credentials")
@@ -513,6 +601,14 @@ func c11Run(ci any) (res Result) {
 		if res.Oracle == "" {
 			res.Oracle = s
 		}
+	}
+	// headers the middleware in front had put there are not the CORS middleware's doing
+	presetMasks := false
+	if hasACAO && en.ACAO != "" && acao[0] == en.ACAO {
+		hasACAO, presetMasks = false, true // cannot tell a grant of the same value from the preset one
+	}
+	if en.ACAC {
+		hasACAC = false
 	}
 	valid := c11ValidOrigin(origin)
 	// verdict of instance i about the Origin: allows it; and whether that verdict is one the property fixes
@@ -624,7 +720,7 @@ func c11Run(ci any) (res Result) {
 		if !anyCreds {
 			fail("Access-Control-Allow-Credentials sent although AllowCredentials is off")
 		}
-		if !hasACAO {
+		if !hasACAO && !presetMasks {
 			fail("Access-Control-Allow-Credentials sent without an allowed origin")
 		}
 		if acac != "true" {
@@ -634,7 +730,7 @@ func c11Run(ci any) (res Result) {
 	if preflight && !allSkipped {
 		fl := layers[firstActive]
 		funcErr := fl.Func != nil && origin != "" && fl.Func.class(origin) >= 100 && rec.Code == fl.Func.class(origin)
-		if ran || (rec.Code != http.StatusNoContent && !funcErr) {
+		if ran || (rec.Code != http.StatusNoContent && !funcErr && !committed) {
 			fail(fmt.Sprintf("OPTIONS preflight answered %d, handler ran=%v (expected 204 without the handler)", rec.Code, ran))
 		}
 	}
@@ -669,6 +765,12 @@ func c11Run(ci any) (res Result) {
 	}
 	if c.Pre {
 		res.Tags = append(res.Tags, "pre")
+	}
+	if committed {
+		res.Tags = append(res.Tags, "entry:response-already-started")
+	}
+	if en.ACAO != "" || en.ACAC || len(en.Vary) > 0 {
+		res.Tags = append(res.Tags, "entry:cors-headers-already-present")
 	}
 	if len(c.Before) > 0 {
 		res.Tags = append(res.Tags, "second-request-through-instance")
@@ -1043,6 +1145,27 @@ func c11GenRequest(r *rand.Rand, c *c11Case) {
 		for k := 1 + r.Intn(3); k > 0; k-- {
 			c.Decoy = append(c.Decoy, c11Pick(r, c11DecoyPool))
 		}
+	}
+	if r.Intn(8) == 0 {
+		en := &c11EntryState{}
+		switch r.Intn(3) {
+		case 0:
+			en.Commit, en.How = c11Pick(r, []int{200, 200, 202, 206, 404}), r.Intn(3)
+		case 1:
+			en.ACAO = c11Pick(r, []string{"https://preset.invalid", "*", "null"})
+			en.ACAC = r.Intn(2) == 0
+			if r.Intn(2) == 0 {
+				en.Vary = c11Pick(r, [][]string{{"Origin"}, {"Accept-Encoding"}, {"Origin", "Accept-Encoding"}})
+			}
+		default:
+			en.Commit, en.How = c11Pick(r, []int{200, 202}), r.Intn(3)
+			en.ACAO = c11Pick(r, []string{"https://preset.invalid", "*"})
+			en.Vary = []string{"Origin"}
+		}
+		if r.Intn(4) == 0 {
+			en.Status = c11Pick(r, []int{202, 204, 401, 500})
+		}
+		c.Entry = en
 	}
 	if r.Intn(10) == 0 {
 		for k := 1 + r.Intn(2); k > 0; k-- {
@@ -1457,6 +1580,11 @@ func c11Shrink(ci any) []any {
 	if len(c.Before) > 0 {
 		simpler(func(d *c11Case) { d.Before = nil })
 	}
+	if c.Entry != nil {
+		simpler(func(d *c11Case) { d.Entry = nil })
+		simpler(func(d *c11Case) { d.Entry = &c11EntryState{Commit: c.Entry.Commit} })
+		simpler(func(d *c11Case) { d.Entry = &c11EntryState{ACAO: c.Entry.ACAO, ACAC: c.Entry.ACAC, Vary: c.Entry.Vary} })
+	}
 	for i := range c.Decoy {
 		i := i
 		simpler(func(d *c11Case) { d.Decoy = append(append([][2]string(nil), c.Decoy[:i]...), c.Decoy[i+1:]...) })
@@ -1581,7 +1709,7 @@ func c11Mutate(r *rand.Rand, ci any) []any {
 func init() {
 	register(&Prop{
 		ID:             "C11",
-		Rule:           "allow-lists of 0-5 entries built from base origins: literals, `*`, sub-domain wildcard, `*` label in the middle / at the end, partial-label `*`/`?`, several wildcards, wildcard in scheme / port, regexp metacharacters, degenerate entries, lists of nothing but blank entries, entries with bytes that are not UTF-8 (do not compile); per list ~60 requests whose Origin is derived from one of ITS entries (or of the origins its AllowOriginFunc knows): instances (wildcards filled with labels, dotted runs, empty) and look-alikes (`?` filled with zero or two characters, suffix / prefix extension, left labels replaced, dot replaced, label inserted / dropped, other scheme, mangled `://`, hosts of 252-255 and origins of 260-262 bytes, the entry text itself, case change, char dropped / inserted / replaced, port, userinfo) x GET/POST/PUT/HEAD/OPTIONS x credentials / unsafe-wildcard flags (all four combinations). Round 4, per list: CORS() vs CORSWithConfig, custom Skipper (skips requests carrying a marker header), AllowOriginFunc as a table (allow / refuse / error with (false|true, err)), AllowMethods / AllowHeaders / ExposeHeaders (nil, empty, blank items) / MaxAge (0, positive, negative), routes with or without an OPTIONS handler (router-provided Allow in the context), e.Use or e.Pre; per request: skip marker, a middleware in front that replaces the context's Allow value by a string / an empty string / a non-string, Access-Control-Request-Headers, 0-2 earlier requests through the same instance (unrelated or resembling this one); plus one probe per list deciding whether an entry of valid / truncated / overlong / surrogate / out-of-range UTF-8 compiled. Round 5: for 1/5 of the lists 1-3 further CORS instances on the path of the same request (e.Use, the route's group, the route; twice on one route): permissive outside (CORS(), `*`, wide patterns) with a strict one inside, strict outside with a permissive one inside, the same list twice, narrowed copies, unrelated lists, AllowOriginFunc instances, per-instance Skipper; the context's Allow value is recorded in front of every instance; plus the `labels-reversed` look-alike. Round 6: 1/3 of the requests carry 1-3 decoy headers a short-cut might key on (Access-Control-Request-Method present / empty, Sec-Fetch-Site same-origin, Sec-Fetch-Mode, X-Requested-With, Authorization, Cookie, Upgrade, X-Forwarded-*, request-side Access-Control-Allow-Origin / Vary, ...), 1/12 a Host equal to the Origin's host; the whole request head (method, every header line) is the model's input; look-alikes `noncanonical-spelling` (default port :443 / :80, trailing slash or dot, blanks around, upper-case host or scheme, comma-joined, a percent-encoded host byte, `#` / `?` / `:` appended, leading-zero port, `scheme:host`) and `long-host-with-port` (host of 249-300 bytes plus a port). Oracle decides Allowed with its own glob matcher (no regexp), AllowOriginFunc cases by its table and call log. With several instances the oracle judges each one on its own: the handler ran => every unskipped instance allows the Origin; a grant in the response => some instance that looked at the request allows it. Non-trivial = (the allow-list has a wildcard pattern or AllowOriginFunc is set) and the request has an Origin; distinct = distinct model op lines",
+		Rule:           "allow-lists of 0-5 entries built from base origins: literals, `*`, sub-domain wildcard, `*` label in the middle / at the end, partial-label `*`/`?`, several wildcards, wildcard in scheme / port, regexp metacharacters, degenerate entries, lists of nothing but blank entries, entries with bytes that are not UTF-8 (do not compile); per list ~60 requests whose Origin is derived from one of ITS entries (or of the origins its AllowOriginFunc knows): instances (wildcards filled with labels, dotted runs, empty) and look-alikes (`?` filled with zero or two characters, suffix / prefix extension, left labels replaced, dot replaced, label inserted / dropped, other scheme, mangled `://`, hosts of 252-255 and origins of 260-262 bytes, the entry text itself, case change, char dropped / inserted / replaced, port, userinfo) x GET/POST/PUT/HEAD/OPTIONS x credentials / unsafe-wildcard flags (all four combinations). Round 4, per list: CORS() vs CORSWithConfig, custom Skipper (skips requests carrying a marker header), AllowOriginFunc as a table (allow / refuse / error with (false|true, err)), AllowMethods / AllowHeaders / ExposeHeaders (nil, empty, blank items) / MaxAge (0, positive, negative), routes with or without an OPTIONS handler (router-provided Allow in the context), e.Use or e.Pre; per request: skip marker, a middleware in front that replaces the context's Allow value by a string / an empty string / a non-string, Access-Control-Request-Headers, 0-2 earlier requests through the same instance (unrelated or resembling this one); plus one probe per list deciding whether an entry of valid / truncated / overlong / surrogate / out-of-range UTF-8 compiled. Round 5: for 1/5 of the lists 1-3 further CORS instances on the path of the same request (e.Use, the route's group, the route; twice on one route): permissive outside (CORS(), `*`, wide patterns) with a strict one inside, strict outside with a permissive one inside, the same list twice, narrowed copies, unrelated lists, AllowOriginFunc instances, per-instance Skipper; the context's Allow value is recorded in front of every instance; plus the `labels-reversed` look-alike. Round 6: 1/3 of the requests carry 1-3 decoy headers a short-cut might key on (Access-Control-Request-Method present / empty, Sec-Fetch-Site same-origin, Sec-Fetch-Mode, X-Requested-With, Authorization, Cookie, Upgrade, X-Forwarded-*, request-side Access-Control-Allow-Origin / Vary, ...), 1/12 a Host equal to the Origin's host; the whole request head (method, every header line) is the model's input; look-alikes `noncanonical-spelling` (default port :443 / :80, trailing slash or dot, blanks around, upper-case host or scheme, comma-joined, a percent-encoded host byte, `#` / `?` / `:` appended, leading-zero port, `scheme:host`) and `long-host-with-port` (host of 249-300 bytes plus a port). Round 7: for 1/8 of the requests a middleware in front of the first instance has prepared the shared response: CORS-looking headers already present (Access-Control-Allow-Origin `*` / a foreign origin / null, -Credentials, Vary), the Status field preset, or the response already STARTED (WriteHeader / Write / WriteHeader+Flush with 200 / 202 / 206 / 404) before next is called; the state is an input of the model, and once the response is started the observation is what went over the wire (recorder snapshot). Oracle decides Allowed with its own glob matcher (no regexp), AllowOriginFunc cases by its table and call log. With several instances the oracle judges each one on its own: the handler ran => every unskipped instance allows the Origin; a grant in the response => some instance that looked at the request allows it. Non-trivial = (the allow-list has a wildcard pattern or AllowOriginFunc is set) and the request has an Origin; distinct = distinct model op lines",
 		New:            func() any { return &c11Case{} },
 		Gen:            c11Gen,
 		Run:            c11Run,
